@@ -16,9 +16,12 @@ unregistered and looked up afresh) with the description of generation `g'`.  `PP
 gives the program of every generation.
 
 Client obligations (both are needed, see notes/ENGINEGEN.md):
-* `SigCovers PP` — a rule's signature covers its definition: two generations that give a rule the same
-  signature give it the same task (requests, discovered dependencies, result function); every
-  generation satisfies `Program.WF`.
+* `SigCoversValid PP` — the signature of a rule whose stored result can be reused covers its definition:
+  two generations that give a rule the same signature, one of which can accept a stored value of the
+  rule at all (`CanValid`), give it the same task (requests, discovered dependencies, result function);
+  every generation satisfies `Program.WF`.  (`SigCovers PP`, the same without the `CanValid` proviso,
+  implies it: `SigCovers.toWeak`.  A rule that never accepts its stored value — a BuildSystem target —
+  may change its definition under a constant signature.)
 * `SelfStable PP` — a rule that reads the external state at its own key (an input rule) reads it the
   same way in every generation in which it is an input rule.
 -/
@@ -34,7 +37,7 @@ namespace LLBuild.Engine
 any number of EDITS OF THE BUILD DESCRIPTION (`reprogram`), a successful build returns the value a
 brand-new engine computes for the CURRENT description in the current external state
 ("incremental = clean" across description changes). -/
-theorem C01_value_gen {PP : Nat → Program} (hC : SigCovers PP) (hS : SelfStable PP) {evs : List GEvent} {g0 : Nat}
+theorem C01_value_gen {PP : Nat → Program} (hC : SigCoversValid PP) (hS : SelfStable PP) {evs : List GEvent} {g0 : Nat}
     {s s' : St} {g : Nat} {v : Val}
     (hrun : runG PP ({}, g0) evs = some (s, g)) (hret : step (PP g) s (.ret v) = some s')
     (hnd : s'.pendingDropped = false)
@@ -63,7 +66,7 @@ theorem C01_value_gen {PP : Nat → Program} (hC : SigCovers PP) (hS : SelfStabl
 
 /-- ... and when the current description's requests are monotone with distinct ids (`Program.Det`) that
 value is unique: the build returns EXACTLY the clean value of the current description. -/
-theorem C01_value_unique_gen {PP : Nat → Program} (hC : SigCovers PP) (hS : SelfStable PP) {evs : List GEvent}
+theorem C01_value_unique_gen {PP : Nat → Program} (hC : SigCoversValid PP) (hS : SelfStable PP) {evs : List GEvent}
     {g0 : Nat} {s s' : St} {g : Nat} {v : Val} (hD : (PP g).Det)
     (hrun : runG PP ({}, g0) evs = some (s, g)) (hret : step (PP g) s (.ret v) = some s')
     (hnd : s'.pendingDropped = false)
@@ -74,7 +77,7 @@ theorem C01_value_unique_gen {PP : Nat → Program} (hC : SigCovers PP) (hS : Se
 
 /-- **C01_inputs_gen.**  Every input value handed to a task is the clean value of that input for the
 CURRENT description — never one left over from an earlier description or an earlier external state. -/
-theorem C01_inputs_gen {PP : Nat → Program} (hC : SigCovers PP) (hS : SelfStable PP) {evs : List GEvent} {g0 : Nat}
+theorem C01_inputs_gen {PP : Nat → Program} (hC : SigCoversValid PP) (hS : SelfStable PP) {evs : List GEvent} {g0 : Nat}
     {s s' : St} {g : Nat} {k : Key} {id : Nat} {key : Key} {v : Val} {reqs : List Req}
     (hrun : runG PP ({}, g0) evs = some (s, g)) (hnd : s.pendingDropped = false)
     (hprov : step (PP g) s (.provide k id key v reqs) = some s') :
@@ -139,11 +142,27 @@ theorem C09_changed_definition_reruns {PP : Nat → Program} {evs : List GEvent}
     · rw [hnone hs] at c; cases c
     · rw [hnone hs] at c; cases c
 
-/-- **C09_changed_definition_signature_differs.**  The bridge from "definition" to "signature" under
-the client obligation: if the stored result of `k` carries a signature of generation `g0`'s rule and
-the rule's task differs between `g0` and the current generation (requests, discovered dependencies
-or result function), then the stored signature is not the one the engine holds for the rule now —
-so `C09_changed_definition_reruns` applies. -/
+/-- **C09_changed_definition_signature_differs_valid.**  The bridge from "definition" to "signature"
+under the client obligation `SigCoversValid`: if the stored result of `k` carries a signature of
+generation `g1`'s rule, the current rule of `k` can accept a stored value at all, and the rule's task
+differs between `g1` and the current generation (requests, discovered dependencies or result
+function), then the stored signature is not the one the engine holds for the rule now — so
+`C09_changed_definition_reruns` applies.  (A rule that never accepts its stored value re-runs in every
+build anyway: the only verdict it can give is "invalid", `C02_reason_true` reason 2.) -/
+theorem C09_changed_definition_signature_differs_valid {PP : Nat → Program} (hC : SigCoversValid PP)
+    (hS : SelfStable PP) {evs : List GEvent} {g0 : Nat} {s : St} {g : Nat} {k : Key}
+    (hrun : runG PP ({}, g0) evs = some (s, g)) (hnd : s.pendingDropped = false)
+    (hreg : s.registered k = true) (hv : CanValid (PP g) k) {g1 : Nat} (hrec : SigOf (PP g1) k (s.mem.res k).sig)
+    (hchg : (PP g1).next k ≠ (PP g).next k ∨ (PP g1).disc k ≠ (PP g).disc k ∨
+      ∃ e r, (PP g1).out k e r ≠ (PP g).out k e r) :
+    (s.mem.res k).sig ≠ s.sigAt k := by
+  obtain ⟨env', he'⟩ := (reachG_inv hC hS hrun hnd).1.sigAtOk k hreg
+  obtain ⟨env, he⟩ := hrec
+  intro heq
+  exact hC.changed hv hchg env env' (he.trans (heq.trans he'.symm))
+
+/-- **C09_changed_definition_signature_differs.**  The same under the stronger obligation `SigCovers`
+(every rule's signature covers its definition), for every rule. -/
 theorem C09_changed_definition_signature_differs {PP : Nat → Program} (hC : SigCovers PP) (hS : SelfStable PP)
     {evs : List GEvent} {g0 : Nat} {s : St} {g : Nat} {k : Key}
     (hrun : runG PP ({}, g0) evs = some (s, g)) (hnd : s.pendingDropped = false)
@@ -151,7 +170,7 @@ theorem C09_changed_definition_signature_differs {PP : Nat → Program} (hC : Si
     (hchg : (PP g1).next k ≠ (PP g).next k ∨ (PP g1).disc k ≠ (PP g).disc k ∨
       ∃ e r, (PP g1).out k e r ≠ (PP g).out k e r) :
     (s.mem.res k).sig ≠ s.sigAt k := by
-  obtain ⟨env', he'⟩ := (reachG_inv hC hS hrun hnd).1.sigAtOk k hreg
+  obtain ⟨env', he'⟩ := (reachG_inv hC.toWeak hS hrun hnd).1.sigAtOk k hreg
   obtain ⟨env, he⟩ := hrec
   intro heq
   exact hC.changed hchg env env' (he.trans (heq.trans he'.symm))
@@ -283,6 +302,101 @@ example : ∃ s, runG PP ({}, 0) (hist0 ++ hist1a) = some (s, 1) ∧ s.pendingDr
     refine ⟨s, rfl, b, c, by rw [d, e]; decide, ⟨fun _ => 0, by rw [d]; rfl⟩, ⟨fun _ => 0, [], by decide⟩, f⟩
 
 end GenExample
+
+/-! ### Non-vacuity of the weaker obligation: a never-valid rule edited under a constant signature -/
+
+namespace WeakExample
+
+/-- every rule has the constant signature 7; rule 1 reads external state 1; rule 2 (a "target": it never
+accepts its stored value) adds `1 + g` to the value of rule 1 — its definition changes, its signature does not -/
+def PP (g : Nat) : Program where
+  sig := fun _ _ => 7
+  valid := fun env k v => if k = 1 then v == env 1 else false
+  next := fun k _ => if k = 2 then [⟨1, 0, 0⟩] else []
+  disc := fun _ _ => []
+  out := fun k env recv => if k = 1 then env 1 else if k = 2 then (recv.map (·.2)).sum + 1 + g else 0
+  force := fun _ => false
+  self := fun k => k == 1
+
+theorem PP_WF (g : Nat) : (PP g).WF := by
+  refine ⟨?_, ?_, ?_, ?_, ?_, ?_⟩
+  · intro k env env' recv _ hs
+    by_cases e : k = 1
+    · subst e; simp only [PP, if_true]; exact hs (by simp [PP])
+    · simp [PP, e]
+  · intro k env v hs hv
+    have e : k = 1 := by simpa [PP] using hs
+    subst e; simpa [PP] using hv
+  · intro k recv hs
+    have e : k = 1 := by simpa [PP] using hs
+    subst e; simp [PP]
+  · intro k recv _; rfl
+  · intro k recv d hd; simp [PP] at hd
+  · intro d env env' hs h
+    have e : d = 1 := by simpa [PP] using hs
+    subst e; simpa [PP] using h
+
+theorem PP_SigCoversValid : SigCoversValid PP := by
+  refine ⟨PP_WF, ?_⟩
+  intro g g' k env env' hv _
+  obtain ⟨en, v, hv⟩ := hv
+  have e : k = 1 := by
+    by_cases e : k = 1
+    · exact e
+    · simp [PP, e] at hv
+  subst e
+  exact ⟨rfl, rfl, fun _ _ => rfl⟩
+
+/-- the stronger obligation fails: rule 2 has the same signature and different result functions -/
+theorem PP_not_SigCovers : ¬ SigCovers PP := by
+  intro h
+  have := (h.covers 0 1 2 (fun _ => 0) (fun _ => 0) rfl).2.2 (fun _ => 0) []
+  simp [PP] at this
+
+theorem PP_SelfStable : SelfStable PP := by
+  intro g g' d env hs _
+  have e : d = 1 := by simpa [PP] using hs
+  subst e; simp [PP]
+
+def hist : List GEvent :=
+  ([.mutate 1 3, .buildStart 2, .queueCreated, .dbIter 1, .lookup 2, .scanning 2, .needs 2 0 none, .create 2,
+    .start 2 [⟨1, 0, 0⟩], .lookup 1, .scanning 1, .needs 1 0 none, .create 1, .start 1 [], .inputsAvail 1 [],
+    .complete 1 3 false, .finished 1 { value := 3, sig := 7, computedAt := 1, builtAt := 1, deps := [] },
+    .provide 2 0 1 3 [], .inputsAvail 2 [], .complete 2 4 false,
+    .finished 2 { value := 4, sig := 7, computedAt := 1, builtAt := 1, deps := [⟨1, false, false⟩] },
+    .ret 4, .dbEnd, .tail 0 0] : List Event).map .ev ++ [.reprogram 1] ++
+  ([.buildStart 2, .queueCreated, .dbIter 2, .lookup 2, .scanning 2, .valid 2 4 false, .needs 2 2 none, .create 2,
+    .start 2 [⟨1, 0, 0⟩], .prior 2 4, .lookup 1, .scanning 1, .valid 1 3 true, .upToDate 1,
+    .provide 2 0 1 3 [], .inputsAvail 2 [], .complete 2 5 false,
+    .finished 2 { value := 5, sig := 7, computedAt := 2, builtAt := 2, deps := [⟨1, false, false⟩] }] : List Event).map .ev
+
+set_option maxRecDepth 4096 in
+/-- non-vacuity of `C01_value_gen` under `SigCoversValid` where `SigCovers` fails: the edited never-valid
+rule re-runs (reason 2) and the build returns the clean value 5 of the new description -/
+example : ∃ s s', runG PP ({}, 0) hist = some (s, 1) ∧
+    step (PP 1) s (.ret 5) = some s' ∧ s'.pendingDropped = false ∧
+    (s.cancelled = false ∧ s.cycleSeen = false ∧ s.errSeen = false) ∧ SigCoversValid PP ∧ SelfStable PP ∧
+    ¬ SigCovers PP := by
+  have h : ((runG PP ({}, 0) hist).bind (fun sg =>
+      (step (PP 1) sg.1 (.ret 5)).map (fun s' => (sg.2 == 1 && !s'.pendingDropped && !sg.1.cancelled &&
+        !sg.1.cycleSeen && !sg.1.errSeen)))) = some true := by decide
+  cases h1 : runG PP ({}, 0) hist with
+  | none => rw [h1] at h; cases h
+  | some sg =>
+    obtain ⟨s, g⟩ := sg
+    rw [h1] at h
+    simp only [Option.bind] at h
+    cases h2 : step (PP 1) s (.ret 5) with
+    | none => rw [h2] at h; cases h
+    | some s' =>
+      rw [h2] at h
+      simp only [Option.map, Option.some.injEq, Bool.and_eq_true, beq_iff_eq, Bool.not_eq_eq_eq_not,
+        Bool.not_true] at h
+      obtain ⟨⟨⟨⟨a, b⟩, c⟩, d⟩, e⟩ := h
+      subst a
+      exact ⟨s, s', rfl, h2, b, ⟨c, d, e⟩, PP_SigCoversValid, PP_SelfStable, PP_not_SigCovers⟩
+
+end WeakExample
 
 /-! ### `SelfStable` cannot be dropped
 
